@@ -354,7 +354,8 @@ func (s *Sim) Gen(r *PRNG) Step {
 			st.C = st.C&^3 | ownThis | 1<<10
 		}
 	case "mkrev":
-		st.A, st.B, st.C, st.D = r.Intn(nsets), r.Intn(4), r.Intn(16), r.Intn(6)
+		// C: owner(2) | label mode(2)<<2 | reference written with the other served version<<4
+		st.A, st.B, st.C, st.D = r.Intn(nsets), r.Intn(4), r.Intn(16)|(r.Intn(5)/4)<<4|(r.Intn(6)/5)<<5, r.Intn(6)
 	}
 	return st
 }
